@@ -255,6 +255,16 @@ func originsOpt(v ssa.Value, keepMakeIface bool) []ssa.Value {
 				}
 				// a field of a local struct that extracted helpers update through a pointer
 				// (two locals bundled into `var span txidSpan; span.extend(info)`)
+				// a field the reference struct did not have (a parameter promoted to receiver
+				// state): what production code stores into it
+				if fa, ok := x.X.(*ssa.FieldAddr); ok {
+					if more := newFieldValues(fa); len(more) > 0 {
+						for _, m := range more {
+							walk(m)
+						}
+						return
+					}
+				}
 				if fa, ok := x.X.(*ssa.FieldAddr); ok {
 					if more := localStructFieldValues(fa); more != nil {
 						for _, m := range more {
@@ -631,7 +641,7 @@ func (p FP) holds(f Fact) bool {
 	if f.Op == token.ILLEGAL {
 		// a true error predicate (os.IsNotExist(err), errors.Is(err, x), ...) entails err != nil
 		if p.Op == token.NEQ && f.Truth {
-			if call, ok := f.L.(*ssa.Call); ok && errPredicates[calleeName(call)] && len(call.Call.Args) > 0 {
+			if call, ok := f.L.(*ssa.Call); ok && isErrPredicate(call) {
 				if p.L(call.Call.Args[0]) && p.R(ssa.NewConst(nil, call.Call.Args[0].Type())) {
 					return true
 				}
